@@ -10,7 +10,7 @@ EXTENDS Snapshot, Json
 O(op, a, b, n, g) == [op |-> op, a |-> a, b |-> b, n |-> n, g |-> g]
 
 MCU    == 4
-MCRecs == <<2, 3, 2>>       \* generation 0: 2 records, 1: 3 records, 2: 2 records
+MCRecs == <<2, 3, 2, 2>>    \* generation 0: 2 records, 1: 3 records, 2 and 3: 2 records
 
 \* one snapshot = openReplace; Snapshot (io.Copy: one or more writes); Sync; Close; Rename
 Cycle(t, g, w1, w2) == << O("create", t, "", 0, g), O("write", t, "", w1, g), O("write", t, "", w2, g),
@@ -32,5 +32,15 @@ OpsRenameFirst == << O("create", "tmp1", "", 0, 1), O("write", "tmp1", "", 12, 1
 OpsInPlace == << O("create", "final", "", 0, 1), O("write", "final", "", 12, 1),
                  O("fsync", "final", "", 0, 1), O("close", "final", "", 0, 1) >>
 
-View == <<pc, ino, dir, ddir, dlog, hnd, begun, done, hasPrev, phase, post>>
+\* a good maintenance snapshot (generation 1, 3 records), then a snapshot (generation 2, 2 records
+\* = 8 units) whose write fails after a prefix; what happens next is Snapshot!ErrorPath (OnWriteError)
+WriteFailAfter(w, f) == Cycle("tmp1", 1, 12, 0)
+                        \o << O("create", "tmp2", "", 0, 2), O("write", "tmp2", "", w, 2), O("writefail", "tmp2", "", f, 2) >>
+OpsWriteFailTorn     == WriteFailAfter(5, 1)    \* 6 units stored: one record and half of the next
+OpsWriteFailBoundary == WriteFailAfter(4, 0)    \* 4 units stored: exactly one record of two
+OpsWriteFailEmpty    == WriteFailAfter(0, 0)    \* nothing stored
+\* ... followed by a further, successful snapshot (the shutdown snapshot after a failed periodic one)
+OpsWriteFailThenGood == WriteFailAfter(5, 1) \o Cycle("tmp3", 3, 4, 4)
+
+View == <<pc, ino, dir, ddir, dlog, hnd, begun, done, failed, errh, epc, hasPrev, phase, post>>
 =============================================================================
